@@ -10,6 +10,8 @@ Families
   power     : z = 1, rho = p, c = 1/p, mu = mu0 (p/p0)^k  -> alpha ~ p^(1-k); k = 1 is constant diffusivity
   kinked    : as power with exponent k1 below p_k and k2 above (continuous mu, kink at a table node)
   realgas   : z = 1 + a x + b x^2, mu = mu0 (1 + s x^2), x = p/p_max; c = 1/p - z'/z
+  liquid    : slightly compressible liquid, c = c0 and mu = mu0 constant, rho ~ exp(c0 p): diffusivity column exactly
+              flat while m ~ exp(c0 p) is not proportional to p (the linear problem with m(p_f)/m(p_i) != p_f/p_i)
   library   : bluebonnet.fluids.build_pvt_gas for a generated composition
 The synthetic families are thermodynamically exact at the nodes: rho = p/z, c = d ln rho/dp and
 m = integral of 2p/(mu z) (Gauss-Legendre, 12 points per interval, split at the kink).
@@ -83,6 +85,21 @@ def _synthetic(spec):
         mu = lambda q: mu0 * (1 + s * (q / pm) ** 2)  # noqa: E731
         z = lambda q: 1 + a * (q / pm) + b * (q / pm) ** 2  # noqa: E731
         dz = lambda q: a / pm + 2 * b * q / pm**2  # noqa: E731
+    elif fam == "liquid":
+        # slightly compressible liquid: constant compressibility c0 and viscosity, density ~ exp(c0 p).  The table is
+        # thermodynamically consistent (1/p - z'/z = c0 with z = p / density) and its diffusivity column is *exactly*
+        # flat, while pseudopressure ~ exp(c0 p) is far from proportional to pressure: the scaled problem is the linear
+        # one (closed-form Fourier series) with frac-face value m(p_f)/m(p_i), not p_f/p_i
+        c0 = spec["kappa"] / float(p[-1])
+        zz = (p / p0) * np.exp(-c0 * (p - p[0]))
+        return {
+            "pressure": p,
+            "viscosity": np.full_like(p, mu0),
+            "z-factor": zz,
+            "density": spec.get("rho0", 1.0) * p / zz,
+            "compressibility": np.full_like(p, c0),
+            "pseudopressure": (2 * p0 / (mu0 * c0)) * np.expm1(c0 * (p - p[0])),
+        }
     else:
         raise ValueError(fam)
     zz = z(p)
@@ -198,7 +215,7 @@ def as_container(tab, container):
 
 
 def constant_diffusivity(spec):
-    return spec["family"] == "power" and spec["k"] == 1.0
+    return (spec["family"] == "power" and spec["k"] == 1.0) or spec["family"] == "liquid"
 
 
 # --------------------------------------------------------------------------------------------------
@@ -218,7 +235,7 @@ def _grid(draw, nmax):
 
 
 @st.composite
-def synthetic_spec(draw, nmax=120, families=("power", "power1", "kinked", "realgas")):
+def synthetic_spec(draw, nmax=120, families=("power", "power1", "kinked", "realgas", "liquid")):
     fam = draw(st.sampled_from(list(families)))
     g = draw(_grid(nmax))
     spec = dict(g)
@@ -233,6 +250,9 @@ def synthetic_spec(draw, nmax=120, families=("power", "power1", "kinked", "realg
         spec["k1"] = draw(st.floats(0.2, 1.8))
         spec["k2"] = draw(st.floats(0.2, 1.8))
         spec["kink_frac"] = draw(st.floats(0.1, 0.9))
+    elif fam == "liquid":
+        spec["family"] = "liquid"
+        spec["kappa"] = draw(st.one_of(st.floats(0.01, 4.0), st.sampled_from([1.0, 0.125, 3.0])))  # c0 * p_max
     else:
         spec["family"] = "realgas"
         spec["a"] = draw(st.floats(-0.4, 0.2))
@@ -263,7 +283,7 @@ def library_spec(draw, pmax_hi=1500.0):
 
 
 @st.composite
-def table_spec(draw, nmax=120, with_library=True, families=("power", "power1", "kinked", "realgas")):
+def table_spec(draw, nmax=120, with_library=True, families=("power", "power1", "kinked", "realgas", "liquid")):
     opts = [shipped_spec(), synthetic_spec(nmax, families), synthetic_spec(nmax, families)]
     if with_library:
         opts.append(library_spec())
@@ -304,3 +324,23 @@ def resolve_pair(tab, pair):
     if pf >= pi:
         pf = 0.5 * (lo + pi)
     return float(pf), float(pi)
+
+
+def scribble(container):
+    """Overwrite the caller's table after it has been handed to the library (another unit system, re-use of the arrays
+    for the next well): every numeric column is changed in place where the container allows it (dict of arrays: the
+    arrays themselves; DataFrame: the column's buffer if writable, then the column is reassigned as well)."""
+    for k in list(container.keys()):
+        col = container[k]
+        try:
+            a = col if isinstance(col, np.ndarray) else col.to_numpy()
+            if a.dtype.kind in "fiu" and a.flags.writeable:
+                a *= 3
+                a += 1
+        except Exception:  # noqa: BLE001 - read-only buffers (copy-on-write frames): fall through to reassignment
+            pass
+        if not isinstance(col, np.ndarray):
+            try:
+                container[k] = np.asarray(container[k]) * 2 + 5
+            except Exception:  # noqa: BLE001
+                pass
